@@ -74,37 +74,53 @@ def run(rep: Report, prog: Program, tier: str) -> None:
             rep.ok("C11-NACK", what, sample="RTP_HISTORY_SIZE")
         else:
             rep.fail(mk_finding(prog, PROP, "C11-NACK", trunc if "truncate" in what else rt, None, f"{what}: the NACK window and the sender history no longer use the same bound", construct=what))
-    sends = []
+    # _retransmit evaluated: the slot a sequence number maps to may be empty or hold a packet that is 128 (a multiple of the history size) away
+    from types import SimpleNamespace as _NSr
 
-    def enclosing_if_tests(root: ast.AST, target: ast.AST) -> List[str]:
-        out: List[str] = []
+    from engine.index import Unknown as _UnkR
+    from engine.peval import Evaluator as _EvR, Raised as _RsR
 
-        def rec(n: ast.AST, acc: List[str]) -> bool:
-            if n is target:
-                out.extend(acc)
-                return True
-            for c in ast.iter_child_nodes(n):
-                nxt = acc
-                if isinstance(n, ast.If) and c in n.body:
-                    nxt = acc + [unparse(n.test)]
-                if rec(c, nxt):
-                    return True
-            return False
+    from .objhook import make_hook as _mkhR
+    sent_r: List = []
 
-        rec(root, [])
-        return out
-
-    for node in walk_no_nested(rt.node):
-        if isinstance(node, ast.Call) and unparse(node.func) == "self.transport._send_rtp":
-            tests = enclosing_if_tests(rt.node, node)
-            sends.append((node, any("packet.sequence_number == sequence_number" in t for t in tests)))
-    if not sends:
-        raise AnalysisError("_retransmit: send not found")
-    for node, ok in sends:
-        if ok:
-            rep.ok("C11-NACK", "_retransmit sends only the packet whose sequence number was requested", sample="guard packet.sequence_number == sequence_number")
+    def _extra_r(call, ev):
+        nm = unparse(call.func)
+        if nm.endswith("transport._send_rtp"):
+            sent_r.append(ev.ev(call.args[0]))
+            return None
+        if nm.endswith(".serialize"):
+            return ev.ev(call.func.value)
+        if nm.endswith("__log_debug"):
+            return None
+        return NotImplemented
+    ohr = _mkhR(prog, _extra_r)
+    evr = _EvR(prog, rt.module, None, {}, ohr)
+    hsize = prog.const(prog.module("rtcrtpsender"), "RTP_HISTORY_SIZE")
+    for label, stored_seq, asked, want_sent in (("the slot holds the packet asked for", 300, 300, True), ("the slot is empty", None, 300, False),
+                                               ("the slot holds a packet one history length older", 300 - hsize, 300, False),
+                                               ("the slot holds a packet one history length newer", 300 + hsize, 300, False),
+                                               ("across the wrap: asked for 5, the slot holds 65413 + 128", (5 - hsize) % 65536, 5, False)):
+        del sent_r[:]
+        me = _NSr(__cls__=rt.cls, _ssrc=1000, _rtx_ssrc=2000, transport=_NSr())
+        hist = {}
+        if stored_seq is not None:
+            pk = ohr.instantiate(prog.cls("rtp.RtpPacket"), [], dict(payload_type=96, sequence_number=stored_seq % 65536, timestamp=1, ssrc=1000, payload=b"x"), evr)
+            hist[(stored_seq % 65536) % hsize] = pk
+        for k_, v_ in {"__rtp_history": hist, "__rtx_payload_type": None, "__rtx_sequence_number": 0, "__rtp_header_extensions_map": _NSr()}.items():
+            setattr(me, k_, v_)
+        try:
+            ohr.run_method(rt, me, [asked], {})
+        except _RsR as ex:
+            rep.fail(mk_finding(prog, PROP, "C11-NACK", rt, getattr(ex, "node", None), f"_retransmit({asked}) when {label}: raises {ex.name}", construct=f"retransmit raises {ex.name}"))
+            continue
+        except _UnkR as ex:
+            raise AnalysisError(f"C11-NACK cannot evaluate _retransmit ({label}): {ex}")
+        ok_r = (len(sent_r) == 1 and sent_r[0].sequence_number == asked) if want_sent else not sent_r
+        if ok_r:
+            rep.ok("C11-NACK", f"_retransmit when {label}", sample="sent" if want_sent else "nothing sent")
         else:
-            rep.fail(mk_finding(prog, PROP, "C11-NACK", rt, node, "a history slot is retransmitted without checking it holds the requested sequence number"))
+            rep.fail(mk_finding(prog, PROP, "C11-NACK", rt, rt.node, f"_retransmit({asked}) when {label}: sent {[p.sequence_number for p in sent_r]}; a history slot must only be retransmitted when it holds "
+                                "exactly the sequence number that was asked for", construct="retransmit of a stale history slot"))
 
     # ---------------- C11-RTX
     rep.rule("C11-RTX", "RTX unwrap guards and codec", min_instances=3)
